@@ -959,6 +959,11 @@ def rule_text_identity(model):
                 and isinstance(x.test.args[0], ast.Name)):
             continue
         types = x.test.args[1]
+        if isinstance(types, ast.Name) and types.id not in ('str', 'bytes'):
+            # a module-level constant naming the types
+            vals = fi.module.globals.get(types.id) or []
+            if len(vals) == 1:
+                types = vals[0]
         names = [norm(e) for e in (types.elts if isinstance(
             types, ast.Tuple) else [types])]
         if 'str' not in names:
